@@ -54,6 +54,24 @@ CONTROLS: List[Tuple[str, str, str, str, Callable[[Program], list], str]] = [
     ("R-ISNUM", "types", "",
      "def vp_ctl_isnum(x):\n    if isinstance(x, (int, float)):\n        return float(x)\n    return tuple(x)\n",
      lambda p: generic2.rule_isnum(p, {"types"}), "vp_ctl_isnum#isnum:x"),
+    ("R-VALUEOBJ", "roi", "Tiles",
+     "def __eq__(self, other):\n    if isinstance(other, VariableSizedTiles):\n        return self.chunks == other.chunks\n    return isinstance(other, Tiles) and self._base_shape == other._base_shape\n",
+     lambda p: generic2.rule_eqsym(p, {"roi"}), "Tiles#EQSYM:VariableSizedTiles"),
+    ("R-SHIFTIDX", "roi", "",
+     "def _vp_ctl_shift(a, i):\n    n = len(a) - 1\n    if not -n <= i < n:\n        raise IndexError(i)\n    return int(a[i + 1]) - int(a[i])\n",
+     lambda p: generic2.rule_shiftidx(p, {"roi"}), "_vp_ctl_shift#shiftidx"),
+    ("R-SWALLOW", "roi", "",
+     "def _vp_ctl_swallow(s) -> bool:\n    try:\n        (n,) = roi_shape(s)\n    except ValueError:\n        return False\n    return n <= 0\n",
+     lambda p: generic2.rule_swallow(p, {"roi"}), "_vp_ctl_swallow#swallow"),
+    ("R-UNITS", "gridspec", "GridSpec",
+     "def _vp_ctl_units(self, geopolygon):\n    return geopolygon.to_crs(self.crs, resolution=min(self.tile_size.xy))\n",
+     lambda p: generic2.rule_units(p, {"gridspec"}), "_vp_ctl_units#units"),
+    ("R-REVRANGE", "gridspec", "",
+     "def _vp_ctl_rev(ix1, ix2, flip):\n    return range(ix1, ix2) if not flip else range(ix2, ix1, -1)\n",
+     lambda p: generic2.rule_revrange(p, {"gridspec"}), "_vp_ctl_rev#revrange"),
+    ("R-IMPORTTIME", "cog._rio", "",
+     "_VP_CTL_DIR = str(uuid4())\n",
+     lambda p: generic2.rule_importtime(p, {"cog._rio"}), "cog._rio#importtime"),
     ("R-ABSEPS", "geobox", "GeoBox",
      "def _vp_ctl_abseps(self):\n    return self._affine.is_rectilinear\n",
      lambda p: generic.rule_abseps(p, {"geobox"}), "_vp_ctl_abseps#abs-eps"),
